@@ -133,6 +133,11 @@ func toMapData(data any) map[string]any {
 	if m, ok := data.(map[string]any); ok {
 		return m
 	}
+	// Any other map with string keys (map[string]string, a named map type, ...) carries the
+	// same information: list its entries, so that they rank like those of a map[string]any.
+	if m, ok := reflect.StringKeyedMap(data); ok {
+		return m
+	}
 	// Try to convert struct to map using JSON tags
 	if m := reflect.StructToMap(data); len(m) > 0 {
 		reflect.AddGoNameAliases(m, data)
